@@ -262,39 +262,64 @@ def r3(ctx):
     if not bad:
         ctx.ok("C08.R3", "the declared level order is not re-sorted", f.where)
     from ..expect import contains, contains_any
-    LV = """
-        def encode_contrasts(data, contrasts=None, *, levels=None, reduced_rank=False, output=None, _state=None, _spec=None):
-            if levels is not None:
-                extra_categories = set(pandas.unique(data)).difference(levels)
-                if extra_categories:
-                    warnings.warn(f"{extra_categories}", %s)
-                data = pandas.Series(pandas.Categorical(data, %s))
-            else:
-                data = pandas.Series(data).astype("category")
-            ...
-    """
-    ok, why = contains_any(P, f, [LV % (w, c) for c in ("categories=levels", "levels") for w in ("DataMismatchWarning", "category=DataMismatchWarning")])
-    ctx.check(ok, "C08.R3", "explicit / recorded levels are passed through as given", f.where, ctx.construct(f, text="Categorical(categories=levels)"),
+    # every returning path of encode_contrasts, read off its summary (order of the output tests, helpers and temporaries do not
+    # matter): D = the categorical built from the data, with the levels in force if there are any; dense outputs take
+    # categories = list(D.cat.categories) and dummies = get_dummies(D); sparse takes both from the sparse encoder applied to D;
+    # the state records those categories and contrasts.apply receives them as levels
+    try:
+        eouts = [o for o in sym.outcomes(f.node) if o.kind == "return" and o.value is not None]
+    except sym.Unmodelled as e:
+        raise AnalysisError(f"C08.R3: encode_contrasts cannot be summarised: {e}")
+    ok_lv = ok_disc = ok_dense = ok_sparse = ok_apply = bool(eouts)
+    why = "no returning path"
+    n_dense = n_sparse = n_lv = n_disc = 0
+    for o in eouts:
+        frozen = {e.targets[0].id: e.value for e in o.effects if isinstance(e, ast.Assign) and len(e.targets) == 1 and isinstance(e.targets[0], ast.Name)}
+
+        def res(x):
+            return sym.subst(x, frozen) if (x is not None and frozen) else x
+        d = res(sym.value_of(o, "data"))
+        b_lv = sym.pm_any(["pandas.Series(pandas.Categorical(ANY_d0, categories=ANY_L))", "pandas.Series(pandas.Categorical(ANY_d0, ANY_L))"], d)
+        b_ds = sym.pm("pandas.Series(ANY_d0).astype('category')", d)
+        cond_txt = {(norm(res(c)), pol) for c, pol in o.conds}
+        if b_lv is not None and ((f"({b_lv['ANY_L']}) is None", False) in cond_txt or (f"{b_lv['ANY_L']} is None", False) in cond_txt):
+            n_lv += 1
+        elif b_ds is not None:
+            n_disc += 1
+        else:
+            ok_lv = ok_disc = False
+            why = f"the categorical is built as `{norm(d)[:160] if d is not None else None}`"
+            continue
+        D = norm(d)
+        tup = [e for e in o.effects if isinstance(e, ast.Assign) and isinstance(e.targets[0], ast.Tuple) and
+               sym.pm("categorical_encode_series_to_sparse_csc_matrix(ANY_x)", res(e.value)) is not None]
+        bv = sym.pm("ANY_c.apply(ANY_e, levels=ANY_cat, reduced_rank=reduced_rank, output=ANY_o)", res(o.value))
+        recorded = [res(e.value) for e in o.effects if isinstance(e, ast.Assign) and norm(e.targets[0]) == "_state['categories']"]
+        if bv is None or len(recorded) != 1 or norm(recorded[0]) != bv["ANY_cat"]:
+            ok_apply = False
+            why = f"returns `{norm(res(o.value))[:160]}` with recorded categories {[norm(r)[:80] for r in recorded]}"
+            continue
+        if tup:
+            n_sparse += 1
+            tg = [norm(t_) for t_ in tup[0].targets[0].elts]
+            if not (len(tup) == 1 and norm(res(tup[0].value)) == f"categorical_encode_series_to_sparse_csc_matrix({D})" and tg == [bv["ANY_cat"], bv["ANY_e"]]):
+                ok_sparse = False
+                why = f"sparse path: `{norm(res(tup[0]))[:200]}`"
+        else:
+            n_dense += 1
+            if not (bv["ANY_cat"] == f"list({D}.cat.categories)" and bv["ANY_e"] == f"pandas.get_dummies({D})"):
+                ok_dense = False
+                why = f"dense path applies `{bv['ANY_e'][:120]}` with levels `{bv['ANY_cat'][:120]}`"
+    ok_lv, ok_disc = ok_lv and n_lv > 0, ok_disc and n_disc > 0
+    ok_dense, ok_sparse = ok_dense and n_dense > 0, ok_sparse and n_sparse > 0
+    ctx.check(ok_lv, "C08.R3", "explicit / recorded levels are passed through as given", f.where, ctx.construct(f, text="Categorical(categories=levels)"),
               f"expected pandas.Categorical(data, categories=levels): {why}")
-    ctx.check(ok, "C08.R3", "levels are discovered by the categorical dtype conversion (sorted for text, declared order for category dtype)", f.where,
+    ctx.check(ok_disc, "C08.R3", "levels are discovered by the categorical dtype conversion (sorted for text, declared order for category dtype)", f.where,
               ctx.construct(f, text="astype(category)"), f"expected pandas.Series(data).astype('category') when no levels are given: {why}")
-    ok, why = contains(P, f, """
-        def encode_contrasts(data, contrasts=None, *, levels=None, reduced_rank=False, output=None, _state=None, _spec=None):
-            if output in ("narwhals", "pandas", "numpy"):
-                categories = list(data.cat.categories)
-                encoded = pandas.get_dummies(data)
-            elif output == "sparse":
-                categories, encoded = categorical_encode_series_to_sparse_csc_matrix(data)
-            else:
-                raise ValueError("")
-            _state["categories"] = categories
-            ...
-            return contrasts.apply(encoded, levels=categories, reduced_rank=reduced_rank, output=output)
-    """)
-    ctx.check(ok, "C08.R3", "dummy columns and reported categories both come from the categorical's own category list", f.where,
+    ctx.check(ok_dense and ok_apply, "C08.R3", "dummy columns and reported categories both come from the categorical's own category list", f.where,
               ctx.construct(f, text="categories/get_dummies"), f"categories must be list(data.cat.categories) and dummies pandas.get_dummies(data): {why}")
-    ctx.check(ok, "C08.R3", "the sparse path encodes the same categorical", f.where, ctx.construct(f, text="sparse dummy"), f"sparse dummy encoding call changed: {why}")
-    ctx.check(ok, "C08.R3", "contrasts are applied with the same category order", f.where, ctx.construct(f, text="apply(levels=categories)"),
+    ctx.check(ok_sparse and ok_apply, "C08.R3", "the sparse path encodes the same categorical", f.where, ctx.construct(f, text="sparse dummy"), f"sparse dummy encoding call changed: {why}")
+    ctx.check(ok_apply, "C08.R3", "contrasts are applied with the same category order", f.where, ctx.construct(f, text="apply(levels=categories)"),
               f"contrasts.apply must receive levels=categories: {why}")
     sp = P.func("formulaic.utils.sparse.categorical_encode_series_to_sparse_csc_matrix")
     # what is returned for a non-empty level list, written over the parameters: the level list itself and an indicator matrix
